@@ -5,7 +5,7 @@ RE-ast(s): every AST with exactly s nodes over LEAVES / star / cat / alt, with r
 """
 from itertools import product
 
-TOKENS = ["a", "b", "ab", " ", ".", "|", "+", "*", "(", ")", "epsilon", "$", "\\|", "\\*", "\\(", "\\$"]
+TOKENS = ["a", "b", "ab", " ", ".", "|", "+", "*", "(", ")", "epsilon", "$", "\\|", "\\*", "\\(", "\\$", "\\ "]
 
 
 def tok_texts(lmin, lmax):
@@ -18,7 +18,7 @@ def tok_text(case):
     return "".join(TOKENS[i] for i in case[1])
 
 
-LEAVES = [("sym", "a"), ("sym", "b"), ("eps",), ("sym", "|"), ("sym", "$")]
+LEAVES = [("sym", "a"), ("sym", "b"), ("eps",), ("sym", "|"), ("sym", "$"), ("sym", " ")]
 _AST = {}
 
 
@@ -50,7 +50,7 @@ def render(ast, cat=" ", alt="|", redundant=False, eps="$"):
         # ctx: 0 top/union operand, 1 concatenation operand, 2 star operand
         k = t[0]
         if k == "sym":
-            s = "\\" + t[1] if t[1] in "|*(.+)$" else t[1]
+            s = "\\" + t[1] if t[1] in "|*(.+)$ " else t[1]
             return "(" + s + ")" if redundant else s
         if k == "eps":
             return "(" + eps + ")" if redundant else eps
